@@ -160,6 +160,7 @@ func runC07(c *Ctx) {
 		c07Object(c, emit)
 	}
 	checkEffectiveProperty(c, "R07.5", fn, "properties", "Skipable")
+	importPropertyStore(c, "R07.5")
 }
 
 func classifyJSONRefusal(p *prover, cond ssa.Value, val bool) string {
